@@ -24,11 +24,13 @@ if r.returncode != 0:
     print("patch does not apply:", r.stderr.decode()[-500:])
     sys.exit(3)
 results = []
+evdir = "/dev/shm/verif-mutant-evidence.%d" % os.getpid()
+env = dict(os.environ, VERIF_EVIDENCE_DIR=evdir)
 try:
     for chk in a.checks.split(","):
         for seed in a.seeds.split(","):
             p = subprocess.run([os.path.join("/verif", "vcheck"), chk, "--tier", a.tier, "--seed", seed, "--scale", a.scale],
-                               stdout=subprocess.PIPE, stderr=subprocess.STDOUT, cwd="/verif")
+                               stdout=subprocess.PIPE, stderr=subprocess.STDOUT, cwd="/verif", env=env)
             out = p.stdout.decode("latin-1")
             keys = [l.strip()[4:] for l in out.splitlines() if l.strip().startswith("key=")]
             verdict = {0: "MISSED", 1: "DETECTED", 2: "INCONCLUSIVE"}.get(p.returncode, "rc%d" % p.returncode)
@@ -37,6 +39,9 @@ try:
             sys.stdout.flush()
 finally:
     subprocess.run(["git", "-C", "/repo", "checkout", "--", "."])
+    subprocess.run(["git", "-C", "/repo", "clean", "-fdq", "cmdline", "raid", "tommyds"])
+    import shutil
+    shutil.rmtree(evdir, ignore_errors=True)
     st = subprocess.run(["git", "-C", "/repo", "status", "--porcelain", "--untracked-files=no"], stdout=subprocess.PIPE).stdout.decode().strip()
     if st:
         print("WARNING: /repo not clean after undo:\n" + st)
